@@ -240,3 +240,23 @@ prop('C17',
      level_text=("Model-based testing of lookup/resolution/listing against a layout model over generated directory layouts with reference-encoded archives; exploration."),
      technique="model-based property testing over generated directory layouts (rapidcheck + libFuzzer tapes) with independent archive encoders",
      design_ref="DESIGN.md section 3, C17")
+
+prop('C20',
+     quick=dict(sweep=True, pbt=(1600, 200, 8)),
+     thorough=dict(sweep=True, pbt=(60000, 200, 10), stage_timeout=3400),
+     floor=dict(quick=15000, thorough=60000), alloc_cap_mb=64, case_timeout=600,
+     rule=("Every case is at or just beyond an on-disk limit. Sweep (exhaustive for the layer matrix): ArtFile::Write of a frame with every 7-bit layer count 0..127 against every layer-list "
+           "length 0..130 (16768 combinations: must throw iff they differ, else re-read equal); size-prefixed writes of 127/128/255/256/32767/32768/65535/65536 elements with i8/u8/i16/u16/u32 "
+           "prefixes; CLM names of 7..10 characters; VolFile::CreateArchive with sparse members of 2^31, 2^31+1, 2^32-1, 2^32, 2^32+5 bytes among small ones and member sets whose block offsets "
+           "cross 2^32 although every member fits (4 x 1.5 GiB; 3 x (2^31-1); ...), destination absent and pre-existing; ClmFile::CreateArchive with sparse WAVs whose data offsets cross 2^32; "
+           "thorough additionally really writes and re-reads a member of 2^31-1 bytes. The must-refuse archive calls run in a forked child under RLIMIT_FSIZE=1 MiB whose SIGXFSZ handler exits "
+           "with a distinctive status, so a tree that wrongly starts writing is convicted in milliseconds. Oracle: does not fit => std::exception (child status 0), never 'returned normally' and "
+           "never 'started writing'; for VOL the destination afterwards does not exist or still holds its previous bytes; fits => success and the value re-reads. pbt: random plans beyond a "
+           "limit (oversized member position/size, offset-crossing sets, CLM sets, name lengths, container sizes, layer pairs). Non-trivial = every case (all are at/beyond a limit); distinct by plan hash."),
+     sweep_what="layer count x list length (128 x 131, complete); prefix limits; VOL member-size and offset limits x destination state; CLM offset limits; name lengths",
+     sweep_is_whole_domain=False,
+     assumptions=["sparse files on tmpfs stand in for multi-GiB inputs", "a member larger than 2^31-1 bytes does not fit the 31-bit block length field"],
+     title="Writers refuse quantities that do not fit their on-disk fields",
+     level_text=("Boundary-value enumeration at every on-disk limit with an explicit fits/does-not-fit oracle, exhaustive for the layer matrix; generated plans beyond the limits; exploration."),
+     technique="boundary-value enumeration + property-based generation of over-limit plans, forked children under RLIMIT_FSIZE as fault detector",
+     design_ref="DESIGN.md section 3, C20")
